@@ -13,20 +13,30 @@ fn big(v: i128) -> BigRef {
     BigRef::from_i128(v)
 }
 
-/// source values for S when the target has `tbits` bits: FULL up to 16 bits, structured beyond, plus
-/// the target's MIN-1, MIN, MAX, MAX+1 (both signednesses) embedded in the source type
-pub fn source_values<S: Subj>(tier: Tier, tbits: u32) -> Vec<S> {
-    let bits = S::BITS;
-    let mut v: Vec<Vec<u8>> = if bits <= 16 {
-        sets::full(bits)
-    } else if S::N == 1 && S::DIGIT_BITS >= 32 && S::type_name().len() <= 5 {
-        // primitive 32/64-bit and usize/isize: structured on the primitive as one digit
-        sets::structured(S::DIGIT_BITS, 1, tier)
-    } else {
-        sets::structured(S::DIGIT_BITS, S::N, tier)
-    };
-    let nb = S::bytes();
-    let sti = S::ti();
+/// run-time description of a type (keeps the per-pair monomorphised code tiny)
+#[derive(Clone)]
+pub struct Desc {
+    pub name: String,
+    pub bits: u32,
+    pub digit_bits: u32,
+    pub n: usize,
+    pub signed: bool,
+    pub prim: bool,
+}
+pub fn desc<T: Subj>() -> Desc {
+    let name = T::type_name();
+    let prim = !name.starts_with('B');
+    Desc { name, bits: T::BITS, digit_bits: T::DIGIT_BITS, n: T::N, signed: T::SIGNED, prim }
+}
+
+/// source values (byte images) for a source type when the target has `tbits` bits: FULL up to
+/// 16 bits, boundary-structured beyond, plus 2^tbits, 2^(tbits-1) and their negations +-2 (the
+/// target's MIN-1, MIN, MAX, MAX+1 for both signednesses) embedded in the source type
+pub fn source_values(s: &Desc, tier: Tier, tbits: u32) -> Vec<Vec<u8>> {
+    let bits = s.bits;
+    let mut v: Vec<Vec<u8>> = if bits <= 16 { sets::full(bits) } else { sets::structured(s.digit_bits, s.n, tier) };
+    let nb = (bits / 8) as usize;
+    let sti = TypeInfo { bits, signed: s.signed };
     let mut push = |x: BigRef| {
         if sti.fits(&x) {
             v.push(x.to_le_bytes_wrapped(nb));
@@ -39,22 +49,23 @@ pub fn source_values<S: Subj>(tier: Tier, tbits: u32) -> Vec<S> {
             push(p.neg().add(&big(d)));
         }
     }
-    sets::dedup(v).iter().map(|b| S::from_le(b)).collect()
+    sets::dedup(v)
 }
 
-fn pair_name<S: Subj, T: Subj>() -> String {
-    format!("{}->{}", S::type_name(), T::type_name())
+type PairFn<'a> = &'a (dyn Fn(&[u8]) -> (Expect<Z>, Obs<Z>) + Sync);
+
+fn guarded(f: PairFn, b: &[u8]) -> (Expect<Z>, Obs<Z>) {
+    match std::panic::catch_unwind(std::panic::AssertUnwindSafe(|| f(b))) {
+        Ok(x) => x,
+        Err(_) => (Expect::NoPanic, Obs::Panic),
+    }
 }
 
 /// generic driver: for every source value compute (expectation, observation) with `f`
-fn drive<S: Subj, T: Subj>(run: &mut Run, op: &str, f: impl Fn(S) -> (Expect<Z>, Obs<Z>) + Sync) {
-    let config = pair_name::<S, T>();
+fn drive_dyn(run: &mut Run, s: &Desc, t: &Desc, op: &str, f: PairFn) {
+    let config = format!("{}->{}", s.name, t.name);
     if let Some((st, _)) = run.replay_target(&config, op) {
-        let s = S::from_le(&unhex(&st[0]));
-        let (e, o) = match std::panic::catch_unwind(std::panic::AssertUnwindSafe(|| f(s))) {
-            Ok(x) => x,
-            Err(_) => (Expect::NoPanic, Obs::Panic),
-        };
+        let (e, o) = guarded(f, &unhex(&st[0]));
         println!("replay {} {} {}", config, op, st[0]);
         run.replay_verdict(&e, &o);
         return;
@@ -62,16 +73,17 @@ fn drive<S: Subj, T: Subj>(run: &mut Run, op: &str, f: impl Fn(S) -> (Expect<Z>,
     if run.in_replay() || !run.wants_prefix(&config) {
         return;
     }
-    let vals = source_values::<S>(run.tier, T::BITS);
+    let vals = source_values(s, run.tier, t.bits);
     let mut l = Local::default();
-    for s in &vals {
-        let (e, o) = match std::panic::catch_unwind(std::panic::AssertUnwindSafe(|| f(*s))) {
-            Ok(x) => x,
-            Err(_) => (Expect::NoPanic, Obs::Panic),
-        };
-        l.check(&config, op, || vec![hex(&s.le())], 0, &e, &o);
+    for b in &vals {
+        let (e, o) = guarded(f, b);
+        l.check(&config, op, || vec![hex(b)], 0, &e, &o);
     }
     run.merge(&config, "values", op, vals.len() as u64, l);
+}
+
+fn drive<S: Subj, T: Subj>(run: &mut Run, op: &str, f: impl Fn(S) -> (Expect<Z>, Obs<Z>) + Sync) {
+    drive_dyn(run, &desc::<S>(), &desc::<T>(), op, &|b: &[u8]| f(S::from_le(b)));
 }
 
 /// C09: As / CastFrom  (value mod 2^BITS of the target)
